@@ -223,6 +223,7 @@ pub fn run(ctx: &Ctx) -> Outcome {
     });
     out.absorb(r);
     crate::props::tree::run_tree(ctx, &mut out, ctx.n(4, 5) as usize, crate::props::tree::TreeOracle::C17);
+    crate::props::outputs::history_shards(ctx, &mut out, ctx.n(1_500, 30_000));
     out.assumptions = vec![
         "kind compatibility: reference Any (PERSID, EXT, STRING/BINSTRING family) matches any non-MARK belief; Int~Bool; NEXT_BUFFER's buffer ~ Bytes placeholder".into(),
         "the trace hook reports the simulated state faithfully (read-only; src/verif.rs)".into(),
